@@ -101,7 +101,7 @@ pub fn c01(cfg: &Value) {
     }
     drop(q);
     drop(handle);
-    let log = log.lock().unwrap().clone();
+    let log = log.lock().unwrap_or_else(|e| e.into_inner()).clone();
     mc::outcome(log_string(&log));
     // ---- oracle
     let mut seen: BTreeMap<Tag, usize> = BTreeMap::new();
@@ -267,6 +267,30 @@ pub fn c04(cfg: &Value) {
             check_flush_snapshot("after-shutdown", &before, &snap, displaced_ok);
             return;
         }
+        "during-shutdown" => {
+            // the request is made on a live queue (before the handle's drop begins, in program
+            // order); the writer's shutdown races the completion of the future
+            for si in 0..n {
+                let t = Tag { p: 0, seq: si as u8 };
+                q.append(t);
+                returned.push(t);
+            }
+            let before = returned.get();
+            let fut = q.flush_async();
+            {
+                let log = log.clone();
+                threads.push(thread::spawn(move || {
+                    let ((), snap) = wait_with_snapshot(fut, &log);
+                    mc::outcome(format!("during-shutdown snap={}", log_string(&snap)));
+                    check_flush_snapshot("during-shutdown", &before, &snap, displaced_ok);
+                }));
+            }
+            drop(handle);
+            for t in threads {
+                t.join().unwrap();
+            }
+            return;
+        }
         other => panic!("HARNESS: unknown mode {other}"),
     }
     for t in threads {
@@ -312,13 +336,34 @@ pub fn c05_drop(cfg: &Value) {
     if flush_first {
         drop(q.flush_async());
     }
+    let unwinding = cfg["unwinding"].as_bool().unwrap_or(false);
+    if unwinding {
+        // All loom threads share one OS thread, so while main unwinds `std::thread::panicking()`
+        // is true for every model thread and a std guard taken before the panic and released
+        // during it would poison its mutex (loom unwraps that internally). Such models run
+        // without preemptions and start the panic from a quiescent state: the writer parked.
+        assert_eq!(cfg["pb"].as_u64(), Some(0), "HARNESS: unwinding models need preemption bound 0");
+        vtime::advance_when_idle(Duration::ZERO, || false);
+        for si in 0..cfg["late_n"].as_u64().unwrap_or(1) as usize {
+            let t = Tag { p: 0, seq: 50 + si as u8 };
+            q.append(t);
+            returned.update(|r| r.push(t));
+        }
+    }
     let before = returned.read();
     if use_shut_down {
         handle.shut_down();
+    } else if unwinding {
+        // the handle's owner panics: the drop runs while the thread unwinds
+        let r = mc::catching(move || {
+            let _owned = handle;
+            panic!("expected: the owner of the join handle panics");
+        });
+        assert!(r.is_err());
     } else {
         drop(handle);
     }
-    let at_return = log.lock().unwrap().clone();
+    let at_return = log.lock().unwrap_or_else(|e| e.into_inner()).clone();
     // ---- oracle at the return of drop(handle)
     let logged = tags_in(&at_return);
     for t in &before {
@@ -340,7 +385,7 @@ pub fn c05_drop(cfg: &Value) {
     q.append(Tag { p: 0, seq: 90 });
     producer.join().unwrap();
     drop(q);
-    let end = log.lock().unwrap().clone();
+    let end = log.lock().unwrap_or_else(|e| e.into_inner()).clone();
     mc::outcome(log_string(&end));
     if end != at_return {
         mc::violation("write-after-shutdown", format!("the stream was used after drop(handle) returned: at return {} / at end {}", log_string(&at_return), log_string(&end)));
@@ -382,19 +427,19 @@ pub fn c05_forget(cfg: &Value) {
         producer.join().unwrap();
         drop(q); // last handle
     }
-    let closed = |log: &Log| log.lock().unwrap().last() == Some(&Ev::Dropped);
+    let closed = |log: &Log| log.lock().unwrap_or_else(|e| e.into_inner()).last() == Some(&Ev::Dropped);
     let mut rounds = 0;
     while !closed(&log) && rounds < horizon {
         // let one flush interval (1 s) pass while the writer sleeps
         let l = log.clone();
-        vtime::advance_when_idle(Duration::from_millis(1100), move || l.lock().unwrap().last() == Some(&Ev::Dropped));
+        vtime::advance_when_idle(Duration::from_millis(1100), move || l.lock().unwrap_or_else(|e| e.into_inner()).last() == Some(&Ev::Dropped));
         rounds += 1;
         // let the writer act on the expired timer: wait until it sleeps again (having seen the
         // new time) or has closed the stream
         let l = log.clone();
-        vtime::advance_when_idle(Duration::ZERO, move || l.lock().unwrap().last() == Some(&Ev::Dropped));
+        vtime::advance_when_idle(Duration::ZERO, move || l.lock().unwrap_or_else(|e| e.into_inner()).last() == Some(&Ev::Dropped));
     }
-    let end = log.lock().unwrap().clone();
+    let end = log.lock().unwrap_or_else(|e| e.into_inner()).clone();
     mc::outcome(format!("rounds={rounds} {}", log_string(&end)));
     if closed(&log) {
         // the detached writer is about to exit: wait for it (loom tears its statics down when
@@ -455,7 +500,7 @@ pub fn c09(cfg: &Value) {
     gate.grant(producers * n + 2);
     drop(q);
     drop(handle);
-    let end = log.lock().unwrap().clone();
+    let end = log.lock().unwrap_or_else(|e| e.into_inner()).clone();
     let logged = tags_in(&end);
     mc::outcome(log_string(&end));
     let total = producers * n;
@@ -490,7 +535,7 @@ pub fn c09(cfg: &Value) {
             }
         }
     }
-    let overflows = counts.lock().unwrap().get("metrique_queue_overflows").copied().unwrap_or(0);
+    let overflows = counts.lock().unwrap_or_else(|e| e.into_inner()).get("metrique_queue_overflows").copied().unwrap_or(0);
     if overflows as usize != total - logged.len() {
         mc::violation("overflow-counter", format!("metrique_queue_overflows = {overflows} but {} of {total} entries were discarded: {}", total - logged.len(), log_string(&end)));
     }
@@ -526,7 +571,7 @@ pub fn c01_multi(cfg: &Value) {
     }
     let mut outcome = String::new();
     for (qi, log) in logs.iter().enumerate() {
-        let log = log.lock().unwrap().clone();
+        let log = log.lock().unwrap_or_else(|e| e.into_inner()).clone();
         outcome.push_str(&format!("q{qi}: {} | ", log_string(&log)));
         let tags = tags_in(&log);
         let want: Vec<Tag> = (0..n).map(|si| Tag { p: qi as u8, seq: si as u8 }).collect();
